@@ -50,6 +50,9 @@ template<class DT, class IT, int BS> DenseVectorBlocked<DT, IT, BS> dbvec(const 
   return r;
 }
 
+// entry-free container with allocated array slots of length 0 (PersistFmt!Arrays, alloc = TRUE)
+static bool is_alloc(const vj::Value& c) { return c.has("alloc") && c["alloc"].as_bool(); }
+
 template<class CT> struct Ops;   // per container type: build(case container), view(container) for text modes
 
 template<class DT, class IT> struct Ops<DenseVector<DT, IT>>
@@ -68,7 +71,8 @@ template<class DT, class IT> struct Ops<SparseVector<DT, IT>>
   static CT build(const vj::Value& c)
   {
     IVec idx = c["rep"]["idx"].ints(), va = c["rep"]["va"].ints(); Index m = Index(c["m"].as_int());
-    if(idx.empty()) return CT(m);
+    // alloc: the array constructor with arrays of length 0 (array slots exist, what the MatrixMarket reader produces)
+    if(idx.empty() && !is_alloc(c)) return CT(m);
     auto vv = dvec<DT, IT>(va); auto vi = make_ivec<IT>(idx);
     return CT(m, vv, vi);
   }
@@ -79,7 +83,7 @@ template<class DT, class IT, int BS> struct Ops<SparseVectorBlocked<DT, IT, BS>>
   static CT build(const vj::Value& c)
   {
     IVec idx = c["rep"]["idx"].ints(), va = c["rep"]["va"].ints(); Index m = Index(c["m"].as_int());
-    if(idx.empty()) return CT(m);
+    if(idx.empty() && !is_alloc(c)) return CT(m);
     auto vv = dbvec<DT, IT, BS>(va); auto vi = make_ivec<IT>(idx);
     return CT(m, vv, vi);
   }
@@ -102,6 +106,13 @@ template<class DT, class IT> struct Ops<SparseMatrixCSR<DT, IT>>
   {
     const vj::Value& r = c["rep"]; Index m = Index(c["m"].as_int()), n = Index(c["n"].as_int());
     IVec ci = r["ci"].ints();
+    if(ci.empty() && is_alloc(c))
+    {
+      // val and col_ind of length 0, row_ptr of length rows + 1
+      CT a(m, n, Index(0));
+      for(Index i = 0; i <= m; ++i) a.row_ptr()[i] = IT(0);
+      return a;
+    }
     if(ci.empty()) return CT(m, n);
     auto vci = make_ivec<IT>(ci); auto vrp = make_ivec<IT>(r["rp"].ints()); auto vva = dvec<DT, IT>(r["va"].ints());
     return CT(m, n, vci, vva, vrp);
@@ -114,6 +125,12 @@ template<class DT, class IT, int BH, int BW> struct Ops<SparseMatrixBCSR<DT, IT,
   {
     const vj::Value& r = c["rep"]; Index m = Index(c["m"].as_int()), n = Index(c["n"].as_int());
     IVec ci = r["ci"].ints();
+    if(ci.empty() && is_alloc(c))
+    {
+      CT a(m, n, Index(0));
+      for(Index i = 0; i <= m; ++i) a.row_ptr()[i] = IT(0);
+      return a;
+    }
     if(ci.empty()) return CT(m, n);
     auto vci = make_ivec<IT>(ci); auto vrp = make_ivec<IT>(r["rp"].ints()); auto vva = dvec<DT, IT>(flatten_blocks(r["va"]));
     return CT(m, n, vci, vva, vrp);
@@ -126,6 +143,13 @@ template<class DT, class IT> struct Ops<SparseMatrixCSCR<DT, IT>>
   {
     const vj::Value& r = c["rep"]; Index m = Index(c["m"].as_int()), n = Index(c["n"].as_int());
     IVec ci = r["ci"].ints();
+    if(ci.empty() && is_alloc(c))
+    {
+      // val, col_ind, row_numbers of length 0, row_ptr of length used_rows + 1 = 1
+      CT a(m, n, Index(0), Index(0));
+      a.row_ptr()[0] = IT(0);
+      return a;
+    }
     if(ci.empty()) return CT(m, n);
     auto vci = make_ivec<IT>(ci); auto vrp = make_ivec<IT>(r["rp"].ints()); auto vrn = make_ivec<IT>(r["rn"].ints()); auto vva = dvec<DT, IT>(r["va"].ints());
     return CT(m, n, vci, vva, vrp, vrn);
